@@ -54,7 +54,7 @@ REQUIRED_COUNTERS = ["export_checked", "validate_checked", "len_checked", "forma
                      "api_laws", "cli_runs", "harvest_trees", "mbin_export", "mbin_validate", "mbin_len"]
 CASE_TIMEOUT_S = 900
 WATCHDOG_S = {"quick": 1800, "thorough": 7200}
-REPO_TESTS_TIMEOUT_S = {"quick": 240, "thorough": 600}  # unloaded: 8..35 s per module
+REPO_TESTS_TIMEOUT_S = {"quick": 90, "thorough": 600}  # unloaded: 8..40 s per module (incl. start-up)
 
 KEY_NESTED_NOPATTERN = "hex-s19-save-omits-zero-fill-of-nested-patternless-image"
 
